@@ -47,6 +47,46 @@ def stepF (s : StF) : EvF → StF
 /-- the same update as one statement (or inside one write transaction) -/
 def stepFAtomic (s : StF) (w f : Nat) : StF := { s with flags := (f :: s.flags).eraseDups, acked := (w, f) :: s.acked }
 
+/-! ## the flag update as the code has it now: read, compute, write back **if the flags are still what was read**, else read again -/
+inductive EvC where
+  | read (w : Nat)
+  | cas (w f : Nat)       -- UPDATE … SET flags = (read ∪ {f}) WHERE … AND flags = (read); answered OK only when a row was changed
+deriving Repr, DecidableEq
+
+def stepC (s : StF) : EvC → StF
+  | .read w => { s with locals := (w, s.flags) :: s.locals.filter (fun p => !(p.1 == w)) }
+  | .cas w f =>
+    match s.locals.find? (·.1 == w) with
+    | none => s
+    | some (_, old) =>
+      if old = s.flags then { s with flags := (f :: s.flags).eraseDups, acked := (w, f) :: s.acked }
+      else { s with locals := (w, s.flags) :: s.locals.filter (fun p => !(p.1 == w)) }   -- no row changed: read again, no OK yet
+
+def AckedPresent (s : StF) : Prop := ∀ a ∈ s.acked, a.2 ∈ s.flags
+
+theorem stepC_acked (s : StF) (e : EvC) (h : AckedPresent s) : AckedPresent (stepC s e) := by
+  cases e with
+  | read w => exact h
+  | cas w f =>
+    cases hf : s.locals.find? (·.1 == w) with
+    | none => simp only [stepC, hf]; exact h
+    | some p =>
+      obtain ⟨w', old⟩ := p
+      by_cases hc : old = s.flags
+      · simp only [stepC, hf, hc, if_true]
+        intro a ha
+        simp only [List.mem_cons] at ha
+        simp only [List.mem_eraseDups, List.mem_cons]
+        rcases ha with rfl | ha
+        · exact Or.inl rfl
+        · exact Or.inr (h a ha)
+      · simp only [stepC, hf, hc, if_false]
+        exact h
+
+theorem runC_acked : ∀ (sched : List EvC) (s : StF), AckedPresent s → AckedPresent (sched.foldl stepC s)
+  | [], _, h => h
+  | e :: es, s, h => runC_acked es _ (stepC_acked s e h)
+
 /-! ## the handle cache: look up; if absent take the write lock, look up again, open and install -/
 structure Cache where
   handles : List (Nat × Nat)    -- (store id, handle)
